@@ -46,6 +46,10 @@ pub struct JobResult {
     pub notes: Vec<String>,
     /// hash over the event-log hashes of all runs, in order
     pub trace_hash: u64,
+    /// the most expensive single scenario (thread CPU milliseconds, label): how far the workload stays from the
+    /// hang budget. Wall-clock dependent, so kept out of the trace hash and out of every verdict.
+    #[serde(default)]
+    pub slowest: Option<(u64, String)>,
 }
 
 impl JobResult {
@@ -96,6 +100,11 @@ impl JobResult {
             }
         }
         self.notes.extend(o.notes);
+        if let Some(x) = o.slowest {
+            if self.slowest.as_ref().map_or(true, |s| x.0 > s.0) {
+                self.slowest = Some(x);
+            }
+        }
         self.trace_hash = fnv(self.trace_hash, &o.trace_hash.to_le_bytes());
     }
     pub fn violate(&mut self, v: Violation) {
@@ -178,13 +187,24 @@ pub fn run_job(spec: &JobSpec, progress: &mut dyn FnMut(i64)) -> JobResult {
             }
         }
         progress(i as i64);
+        let t0 = thread_cpu_ms();
         let sc = job.scenario(i);
         let r = ex.exec(&sc);
         job.judge(i, &sc, r, &mut out);
+        let dt = thread_cpu_ms().saturating_sub(t0);
+        if out.slowest.as_ref().map_or(true, |s| dt > s.0) {
+            out.slowest = Some((dt, sc.label.chars().take(160).collect()));
+        }
     }
     job.finish(&mut out);
     out.count("compiles", ex.compiles);
     out
+}
+
+fn thread_cpu_ms() -> u64 {
+    let mut ts = libc::timespec { tv_sec: 0, tv_nsec: 0 };
+    unsafe { libc::clock_gettime(libc::CLOCK_THREAD_CPUTIME_ID, &mut ts) };
+    ts.tv_sec as u64 * 1000 + ts.tv_nsec as u64 / 1_000_000
 }
 
 /// regenerate the scenario a job would run at `index` without running it
